@@ -192,4 +192,241 @@ theorem tp_parse_line_shift_on (L : ShiftLawsOn S k) (st st' : TimingPointsState
   · rw [parseTpRaw_error st.general timeS tl e he, parseTpRaw_error st.general timeS' tl e he']
     exact ⟨rfl, h⟩
 
+
+/-! ### `[Events]` lines -/
+
+/-- two time fields: they parse to `t ∈ S` and `t + k`, or both are rejected. -/
+def ParseShiftOn (S : F → Prop) (k : F) (s s' : Str) : Prop :=
+  (∃ t : F, (floatParse s : Option F) = some t ∧ (floatParse s' : Option F) = some (t + k) ∧ S t) ∨
+  ((floatParse s : Option F) = none ∧ (floatParse s' : Option F) = none)
+
+theorem ParseShiftOn.toShift {s s' : Str} (h : ParseShiftOn S k s s') : ParseShift k s s' :=
+  h.elim (fun ⟨t, h1, h2, _⟩ => Or.inl ⟨t, h1, h2⟩) Or.inr
+
+def EvLineShiftOn (S : F → Prop) (k : F) (line line' : Str) : Prop :=
+  (∃ ty sS sS' eS eS' rest,
+    splitOn ',' (trimComment line) = ty :: sS :: eS :: rest ∧
+    splitOn ',' (trimComment line') = ty :: sS' :: eS' :: rest ∧
+    (if EventType.parse ty = some .break_ then ParseShiftOn S k sS sS' ∧ ParseShiftOn S k eS eS' else eS' = eS)) ∨
+  (line' = line ∧ (splitOn ',' (trimComment line)).length < 3)
+
+/-- every break end lies in `S`. -/
+def BreaksIn (S : F → Prop) (e : Events F) : Prop := ∀ b ∈ e.breaks, S b.endTime
+
+/-- **parse_line_shift on `S`**, `[Events]` lines. -/
+theorem ev_parse_line_shift_on (L : ShiftLawsOn S k) (st : Events F) (hst : BreaksIn S st) (line line' : Str)
+    (hl : EvLineShiftOn S k line line') :
+    (parseEvents (shEvents k st) line').2 = (parseEvents st line).2 ∧
+      (parseEvents (shEvents k st) line').1 = shEvents k (parseEvents st line).1 ∧ BreaksIn S (parseEvents st line).1 := by
+  rcases hl with ⟨ty, sS, sS', eS, eS', rest, hs, hs', hc⟩ | ⟨hEq, hlen⟩
+  · unfold parseEvents
+    rw [hs, hs']
+    simp only []
+    cases hty : EventType.parse ty with
+    | none => exact ⟨rfl, rfl, hst⟩
+    | some et =>
+      cases et with
+      | break_ =>
+        simp only [hty, if_true] at hc
+        obtain ⟨h1, h2⟩ := hc
+        simp only []
+        rcases h1 with ⟨s, hs1, hs2, hSs⟩ | ⟨hs1, hs2⟩
+        · rw [hs1, hs2]
+          rcases h2 with ⟨e, he1, he2, hSe⟩ | ⟨he1, he2⟩
+          · rw [he1, he2]
+            refine ⟨rfl, ?_, ?_⟩
+            · simp only [shEvents, List.map_append, List.map, shBreak, L.max_shift s e hSs hSe]
+            · intro b hb
+              simp only [List.mem_append, List.mem_singleton] at hb
+              rcases hb with hb | hb
+              · exact hst b hb
+              · rw [hb]; exact max_mem s e hSs hSe
+          · rw [he1, he2]; exact ⟨rfl, rfl, hst⟩
+        · rw [hs1, hs2]; exact ⟨rfl, rfl, hst⟩
+      | background =>
+        have : eS' = eS := by simpa [hty] using hc
+        rw [this]; exact ⟨rfl, rfl, hst⟩
+      | video =>
+        have : eS' = eS := by simpa [hty] using hc
+        rw [this]
+        simp only []
+        cases hasVideoExtension (cleanFilename eS) with
+        | none => exact ⟨rfl, rfl, hst⟩
+        | some b => cases b <;> exact ⟨rfl, rfl, hst⟩
+      | sprite =>
+        simp only []
+        have hb : (shEvents k st).backgroundFile = st.backgroundFile := rfl
+        rw [hb]
+        cases st.backgroundFile.isEmpty with
+        | false => exact ⟨rfl, rfl, hst⟩
+        | true => cases rest <;> exact ⟨rfl, rfl, hst⟩
+      | color => exact ⟨rfl, rfl, hst⟩
+      | sample => exact ⟨rfl, rfl, hst⟩
+      | animation => exact ⟨rfl, rfl, hst⟩
+  · rw [hEq]
+    unfold parseEvents
+    generalize splitOn ',' (trimComment line) = fs at hlen ⊢
+    match fs, hlen with
+    | [], _ => exact ⟨rfl, rfl, hst⟩
+    | [_], _ => exact ⟨rfl, rfl, hst⟩
+    | [_, _], _ => exact ⟨rfl, rfl, hst⟩
+    | _ :: _ :: _ :: _, h => simp at h; omega
+
+/-! ### hit-object lines -/
+
+variable [Cvt P F]
+
+def HoRestShiftOn (S : F → Prop) (k : F) (cls : Option ObjClass) (rest rest' : List Str) : Prop :=
+  if cls = some .spinner then
+    (rest = [] ∧ rest' = []) ∨ ∃ dS dS' r2, rest = dS :: r2 ∧ rest' = dS' :: r2 ∧ ParseShiftOn S k dS dS'
+  else if cls = some .hold then
+    (rest' = rest ∧ optNonEmpty rest.head? = none) ∨
+    ∃ s s' tl e e' ss, rest = s :: tl ∧ rest' = s' :: tl ∧ s.isEmpty = false ∧ s'.isEmpty = false ∧
+      splitOn ':' s = e :: ss ∧ splitOn ':' s' = e' :: ss ∧ ParseShiftOn S k e e'
+  else rest' = rest
+
+def HoLineShiftOn (S : F → Prop) (k : F) (line line' : Str) : Prop :=
+  (∃ xs ys tS tS' kindS soundS rest rest',
+    splitOn ',' (trimComment line) = xs :: ys :: tS :: kindS :: soundS :: rest ∧
+    splitOn ',' (trimComment line') = xs :: ys :: tS' :: kindS :: soundS :: rest' ∧
+    ParseShiftOn S k tS tS' ∧
+    HoRestShiftOn S k ((i32FromStr kindS).bind (fun ty0 => classify (maskedType ty0))) rest rest') ∨
+  (line' = line ∧ (splitOn ',' (trimComment line)).length < 5)
+
+/-- the header of an accepted line carries the parsed start time. -/
+theorem parseHeader_shift_on (line line' : Str) (xs ys tS tS' kindS soundS : Str) (rest rest' : List Str)
+    (hs : splitOn ',' (trimComment line) = xs :: ys :: tS :: kindS :: soundS :: rest)
+    (hs' : splitOn ',' (trimComment line') = xs :: ys :: tS' :: kindS :: soundS :: rest')
+    (ht : ParseShiftOn S k tS tS') :
+    ((parseHeader line : Option (Header F P)) = none ∧ (parseHeader line' : Option (Header F P)) = none) ∨
+    ∃ hd : Header F P, parseHeader line = some hd ∧ parseHeader line' = some (shHeader k hd rest') ∧
+      hd.rest = rest ∧ i32FromStr kindS = some hd.ty0 ∧ S hd.startTime := by
+  unfold parseHeader
+  rw [hs, hs']
+  simp only []
+  cases (floatParseWithLimits xs (Scalar.ofInt maxCoordinate) : Option P) with
+  | none => exact Or.inl ⟨rfl, rfl⟩
+  | some xv =>
+    simp only []
+    cases (floatParseWithLimits ys (Scalar.ofInt maxCoordinate) : Option P) with
+    | none => exact Or.inl ⟨rfl, rfl⟩
+    | some yv =>
+      simp only []
+      rcases ht with ⟨t, h1, h2, hSt⟩ | ⟨h1, h2⟩
+      · rw [h1, h2]
+        simp only []
+        cases hk : i32FromStr kindS with
+        | none => exact Or.inl ⟨rfl, rfl⟩
+        | some ty0 =>
+          simp only []
+          cases HitSoundType.parse soundS with
+          | none => exact Or.inl ⟨rfl, rfl⟩
+          | some snd => exact Or.inr ⟨_, rfl, rfl, rfl, rfl, hSt⟩
+      · rw [h1, h2]; exact Or.inl ⟨rfl, rfl⟩
+
+theorem buildSpinner_shift_on (L : ShiftLawsOn S k) (hd : Header F P) (hSs : S hd.startTime) (rest' : List Str)
+    (h : HoRestShiftOn S k (some .spinner) hd.rest rest') :
+    buildSpinner (shHeader k hd rest') = buildSpinner hd := by
+  simp only [HoRestShiftOn, if_true] at h
+  unfold buildSpinner
+  rcases h with ⟨h1, h2⟩ | ⟨dS, dS', r2, h1, h2, hp⟩
+  · simp only [shHeader, h1, h2]
+  · simp only [shHeader, h1, h2]
+    rcases hp with ⟨d, hd1, hd2, hSd⟩ | ⟨hd1, hd2⟩
+    · rw [hd1, hd2]
+      simp only [L.sub_shift d hd.startTime hSd hSs]
+    · rw [hd1, hd2]
+
+theorem buildHold_shift_on (L : ShiftLawsOn S k) (hd : Header F P) (hSs : S hd.startTime) (rest' : List Str)
+    (h : HoRestShiftOn S k (some .hold) hd.rest rest') :
+    buildHold (shHeader k hd rest') = buildHold hd := by
+  have hne : (some ObjClass.hold = some ObjClass.spinner) = False := by simp
+  simp only [HoRestShiftOn, hne, if_false, if_true] at h
+  unfold buildHold
+  rcases h with ⟨h1, h2⟩ | ⟨s, s', tl, e, e', ss, h1, h2, hs, hs', hsp, hsp', hp⟩
+  · simp only [shHeader, h1, h2, L.max_shift _ _ hSs hSs, L.sub_shift _ _ (max_mem _ _ hSs hSs) hSs]
+  · have o1 : optNonEmpty (s :: tl).head? = some s := by simp [optNonEmpty, hs]
+    have o2 : optNonEmpty (s' :: tl).head? = some s' := by simp [optNonEmpty, hs']
+    simp only [shHeader, h1, h2, o1, o2, hsp, hsp']
+    rcases hp with ⟨d, hd1, hd2, hSd⟩ | ⟨hd1, hd2⟩
+    · rw [hd1, hd2]
+      simp only []
+      cases (({} : SampleBankInfo).readCustomSampleBanks ss false) with
+      | mk bi ok =>
+        cases ok with
+        | false => rfl
+        | true => simp only [L.max_shift _ _ hSs hSd, L.sub_shift _ _ (max_mem _ _ hSs hSd) hSs]
+    · rw [hd1, hd2]
+
+/-- **parse_line_shift on `S`**, hit-object lines. -/
+theorem ho_parse_line_shift_on (L : ShiftLawsOn S k) (mode : GameMode) (c c' : HOCore F P) (hr : HoRel k c c')
+    (line line' : Str) (hl : HoLineShiftOn S k line line') :
+    (parseHitObjectLine mode c' line').2 = (parseHitObjectLine mode c line).2 ∧
+      HoRel k (parseHitObjectLine mode c line).1 (parseHitObjectLine mode c' line').1 := by
+  rcases hl with ⟨xs, ys, tS, tS', kindS, soundS, rest, rest', hs, hs', ht, hrest⟩ | ⟨hEq, hlen⟩
+  · rcases parseHeader_shift_on (P := P) line line' xs ys tS tS' kindS soundS rest rest' hs hs' ht with
+      ⟨hn, hn'⟩ | ⟨hd, hh, hh', hrst, hty, hSs⟩
+    · unfold parseHitObjectLine
+      rw [hn, hn']
+      exact ⟨rfl, hr⟩
+    · unfold parseHitObjectLine
+      rw [hh, hh']
+      simp only []
+      have hty0 : (shHeader k hd rest').ty0 = hd.ty0 := rfl
+      rw [hty0]
+      rw [hty, ← hrst] at hrest
+      simp only [Option.bind] at hrest
+      cases hcl : classify (maskedType hd.ty0) with
+      | none => exact ⟨rfl, hr⟩
+      | some cls =>
+        rw [hcl] at hrest
+        cases cls with
+        | circle =>
+          have hre : rest' = hd.rest := by simpa [HoRestShiftOn] using hrest
+          subst hre
+          simp only [buildCircle_shift k c c' hr hd]
+          cases buildCircle c hd with
+          | none => exact ⟨rfl, hr⟩
+          | some kb => exact ⟨rfl, pushObject_rel k c c' hr hd _ kb.1 kb.2⟩
+        | slider =>
+          have hre : rest' = hd.rest := by simpa [HoRestShiftOn] using hrest
+          subst hre
+          simp only []
+          obtain ⟨e2, e1⟩ := buildSlider_shift k mode c c' hr hd
+          revert e1 e2
+          cases buildSlider mode c' (shHeader k hd hd.rest) with
+          | mk s1' o' =>
+            cases buildSlider mode c hd with
+            | mk s1 o =>
+              intro e2 e1
+              simp only at e1 e2
+              subst e2
+              cases o' with
+              | none => exact ⟨rfl, e1⟩
+              | some kb => exact ⟨rfl, pushObject_rel k s1 s1' e1 hd _ kb.1 kb.2⟩
+        | spinner =>
+          simp only [buildSpinner_shift_on L hd hSs rest' hrest]
+          cases buildSpinner hd with
+          | none => exact ⟨rfl, hr⟩
+          | some kb => exact ⟨rfl, pushObject_rel k c c' hr hd _ kb.1 kb.2⟩
+        | hold =>
+          simp only [buildHold_shift_on L hd hSs rest' hrest]
+          cases buildHold hd with
+          | none => exact ⟨rfl, hr⟩
+          | some kb => exact ⟨rfl, pushObject_rel k c c' hr hd _ kb.1 kb.2⟩
+  · rw [hEq]
+    have hn : (parseHeader line : Option (Header F P)) = none := by
+      unfold parseHeader
+      generalize splitOn ',' (trimComment line) = fs at hlen
+      match fs, hlen with
+      | [], _ => rfl
+      | [_], _ => rfl
+      | [_, _], _ => rfl
+      | [_, _, _], _ => rfl
+      | [_, _, _, _], _ => rfl
+      | _ :: _ :: _ :: _ :: _ :: _, h => simp at h; omega
+    unfold parseHitObjectLine
+    rw [hn]
+    exact ⟨rfl, hr⟩
+
 end Rosu.C15
